@@ -39,10 +39,15 @@ MODELLED = ('sr/value_types.py: the 15 constructors (attribute writing + validat
             'parse2 = accept over the whole tree, then the accessors (faithful error precedence, multi-fault '
             'malformed stream); ContentSequence(items, is_root, is_sr) / from_sequence(..., is_root, is_sr) in the '
             'three kinds of sequence; ContentSequence.append/insert/extend/+=/__setitem__/__delitem__ (int and '
-            'slice)/find/get_nodes/index/__contains__ with the name look-up table.')
-STRATA = ['tree', 'code', 'code_from', 'scoord', 'scoord3d', 'malformed', 'seqmode', 'seqops', 'subclass']
+            'slice)/find/get_nodes/index/__contains__ with the name look-up table; from_dataset of the 12 template '
+            'content items of sr/content.py (whether each asserts the value type is read off the source); the '
+            'len(str(value)) <= 16 rule of NumContentItem for ints and exact representability as a double.')
+STRATA = ['tree', 'code', 'code_from', 'scoord', 'scoord3d', 'malformed', 'seqmode', 'seqops', 'subclass', 'num_int']
 NOT_EXECUTED = ['near-tolerance coplanarity (deviation between 1e-7 and 1e-3)',
-                'non-ASCII text (model strings are ASCII)']
+                'non-ASCII text (model strings are ASCII)',
+                'sr/content.py: constructors and accessors of the template content items, VolumeSurface / '
+                'ReferencedSegment / ReferencedSegmentationFrame (only the from_dataset of the 12 item classes is driven)',
+                'coded concepts with scheme SRT (pydicom maps SRT to SCT in Code.__eq__; not modelled)']
 RULE = ('tree: random content trees of depth <= 4 over all 15 value types (codes <=16/>16/URN/URL, ints, '
         'dyadic and extreme floats, dates/times with fractions and offsets, every graphic type with valid '
         'counts, frame/segment/channel lists, all 7 relationship types) observed after construction, '
@@ -55,7 +60,9 @@ RULE = ('tree: random content trees of depth <= 4 over all 15 value types (codes
         'with 2-3 such faults in different nodes (error precedence); seqmode: 0-3 items x {root, SR, context, '
         'invalid flag pair} through ContentSequence(...) and from_sequence(...); seqops: a content sequence '
         'mutated by 1-8 random append/insert/extend/+=/set/del (int + slice, indices around both ends) calls, '
-        'then find per name, get_nodes, index, in. '
+        'then find per name, get_nodes, index, in; subclass: the 12 template content items of sr/content.py x datasets '
+        'of the parent / another value type x one required attribute, Value Type or name deleted; num_int: ints '
+        'around 10^15, 10^16, 2^53 and random 14-20 digit ints (exact decimal string stored? value returned?). '
         'non-trivial = tree with >= 2 nodes or a rejected input; distinct by case hash')
 
 VTS = ['CODE', 'COMPOSITE', 'CONTAINER', 'DATE', 'DATETIME', 'IMAGE', 'NUM', 'PNAME', 'SCOORD',
@@ -592,6 +599,13 @@ def gen_cases(rng, tier):
         cases.append(g_seqops(rng))
     for _ in range(50 * n):
         cases.append(g_subclass(rng))
+    for z in [10**15, 10**15 - 1, 10**15 + 1, 10**16 - 1, 10**16, 10**16 + 1, 2**53 - 1, 2**53, 2**53 + 1, 2**53 + 2,
+              2**53 + 3, 2**53 + 4, 9007199254740993, 2**60, 2**63 - 1, 10**17, 123456789012345678, 0, 7]:
+        cases.append({'kind': 'num_int', 'z': z})
+        cases.append({'kind': 'num_int', 'z': -z})
+    for _ in range(12 * n):
+        d = rng.choice([14, 15, 16, 17, 18, 20])
+        cases.append({'kind': 'num_int', 'z': rng.choice([1, -1]) * rng.randint(10**(d - 1), 10**d - 1)})
     return cases
 
 
@@ -1086,6 +1100,16 @@ def run_impl(c):
         return [st, ob]
     if k == 'seqops':
         return catch(_seqops_impl, c)
+    if k == 'num_int':
+        def f():
+            z = c['z']
+            it = sr.NumContentItem(_cc(sr, ['1', '99X', 'n', None]), z, _cc(sr, ['mm', 'UCUM', 'mm', None]), relationship_type='CONTAINS')
+            exact = str(it.MeasuredValueSequence[0].NumericValue) == str(z)
+            if not exact:
+                return [False, None]
+            back = sr.NumContentItem.from_dataset(via_bytes(it))
+            return [True, F(it.value) == z and F(back.value) == z]
+        return catch(f)
     if k == 'subclass':
         import highdicom.sr.content as cm
         ds = catch(_sub_ds, c)
@@ -1247,6 +1271,8 @@ def coq_term(c):
     ql = lambda l: '[' + '; '.join(q_item(t) for t in l) + ']'
     if k == 'seqmode':
         return f'(run_seqmode {b(c["root"])} {b(c["sr"])} {ql(c["items"])})'
+    if k == 'num_int':
+        return f'(run_num_int {zlit(c["z"])})'
     if k == 'subclass':
         _hd()
         ds = catch(_sub_ds, c)
@@ -1510,6 +1536,16 @@ def oracle(c, out):
         if ob != Err(want):
             return f'from_sequence(is_root={c["root"]}, is_sr={c["sr"]}) gave {ob}, the rule says {want}'
         return None
+    if k == 'num_int':
+        z = c['z']
+        if isinstance(out, Err):
+            return f'NumContentItem refused the int {z}: {out}'
+        fits = len(str(z)) <= 16
+        if out[0] != fits:
+            return f'int {z} ({len(str(z))} characters): exact decimal string stored = {out[0]}'
+        if fits and abs(z) <= 2**53 and out[1] is not True:
+            return f'NumContentItem.value does not return the int {z} it was constructed with'
+        return None
     if k == 'subclass':
         parent, asserts = sub_table()[c['sub']]
         t, dl = c['tree']['t'], c['del']
@@ -1535,7 +1571,9 @@ def oracle(c, out):
         if d:
             return d
         for n, got, w in zip(c['names'], finds, wfinds):
-            if isinstance(got, Err) or sorted(map(repr, got)) != sorted(map(repr, w)):
+            # multiset, code meanings apart: the look-up table drops the first EQUAL item, which may be another
+            # object than the one leaving the list (the container itself is the subject of property C14)
+            if isinstance(got, Err) or sorted(repr(_blank(x)) for x in got) != sorted(repr(_blank(x)) for x in w):
                 return f'find({n[:4]}) returned {got if isinstance(got, Err) else len(got)} item(s), the sequence holds {len(w)} with that name'
         if isinstance(nodes, Err) or _first_diff(nodes, wnodes, 'get_nodes'):
             return f'get_nodes: {nodes if isinstance(nodes, Err) else _first_diff(nodes, wnodes)}'
